@@ -19,14 +19,14 @@ import (
 )
 
 type Clause struct {
-	Kind  string // requires ensures invariant decreases atcall let
-	Label string
-	Props []string
-	Text  string
-	Loop  int
+	Kind   string // requires ensures invariant decreases atcall let
+	Label  string
+	Props  []string
+	Text   string
+	Loop   int
 	Callee string // atcall
-	Name  string // let
-	Line  string // file:line of the clause
+	Name   string // let
+	Line   string // file:line of the clause
 	// compiled lazily
 	expr  ast.Expr
 	info  *types.Info
@@ -40,7 +40,7 @@ func (cl *Clause) internal() bool {
 	if strings.HasPrefix(cl.Label, "local-") {
 		return true
 	}
-	for _, k := range []string{"ncalls(", "callarg[", "callret[", "firstret[", "pendingErr(", "pendingFailed(", "deferActive(", "deferVal[", "deferObj["} {
+	for _, k := range []string{"ncalls(", "callarg[", "callret[", "firstret[", "pendingErr(", "pendingFailed(", "outCount(", "outFirst(", "outLast(", "deferActive(", "deferVal[", "deferObj["} {
 		if strings.Contains(cl.Text, k) {
 			return true
 		}
@@ -56,6 +56,7 @@ type Contract struct {
 	SafetyProps []string
 	BV          bool
 	Requires    []*Clause
+	Assumes     []*Clause
 	Ensures     []*Clause
 	Invariants  []*Clause
 	Decreases   []*Clause
@@ -88,13 +89,13 @@ type Lemma struct {
 }
 
 type ContractDB struct {
-	byFn    map[*ssa.Function]*Contract
-	byKey   map[string]*Contract
-	lemmas  []*Lemma
-	files   map[*packages.Package]*ast.File // contract file per package
-	errors  []string
-	fset    *token.FileSet
-	sweeps  map[*packages.Package]*sweepSpec
+	byFn     map[*ssa.Function]*Contract
+	byKey    map[string]*Contract
+	lemmas   []*Lemma
+	files    map[*packages.Package]*ast.File // contract file per package
+	errors   []string
+	fset     *token.FileSet
+	sweeps   map[*packages.Package]*sweepSpec
 	typeInvs map[string][]typeInv // "pkgpath.TypeName" -> invariants
 }
 
@@ -250,6 +251,15 @@ func (db *ContractDB) parseFile(prog *ssa.Program, pkg *packages.Package, f *ast
 					for _, d := range strings.Split(rest, ",") {
 						lem.Forall = append(lem.Forall, strings.TrimSpace(d))
 					}
+				}
+			case "assumes":
+				// an assumption about the data structure: assumed on entry, never
+				// checked at call sites, listed in the evidence
+				props, label, text := parseClauseHead(rest)
+				cl := &Clause{Kind: "assumes", Label: label, Props: props, Text: text, Line: where}
+				lastClause = cl
+				if cur != nil {
+					cur.Assumes = append(cur.Assumes, cl)
 				}
 			case "requires", "ensures":
 				props, label, text := parseClauseHead(rest)
@@ -425,12 +435,8 @@ func rewriteImplies(s string) string {
 			depth++
 		case ')', ']', '}':
 			depth--
-		case '"':
-			for i++; i < len(s) && s[i] != '"'; i++ {
-				if s[i] == '\\' {
-					i++
-				}
-			}
+		case '"', '\'':
+			i = skipQuoted(s, i)
 		case '<':
 			if depth == 0 && strings.HasPrefix(s[i:], "<==>") {
 				return "iff(" + rewriteImplies(s[:i]) + ", " + rewriteImplies(s[i+4:]) + ")"
@@ -444,12 +450,8 @@ func rewriteImplies(s string) string {
 			depth++
 		case ')', ']', '}':
 			depth--
-		case '"':
-			for i++; i < len(s) && s[i] != '"'; i++ {
-				if s[i] == '\\' {
-					i++
-				}
-			}
+		case '"', '\'':
+			i = skipQuoted(s, i)
 		case '=':
 			if depth == 0 && strings.HasPrefix(s[i:], "==>") {
 				return "implies(" + rewriteImplies(s[:i]) + ", " + rewriteImplies(s[i+3:]) + ")"
@@ -468,12 +470,8 @@ func rewriteImplies(s string) string {
 					d++
 				case ')':
 					d--
-				case '"':
-					for j++; j < len(s) && s[j] != '"'; j++ {
-						if s[j] == '\\' {
-							j++
-						}
-					}
+				case '"', '\'':
+					j = skipQuoted(s, j)
 				}
 			}
 			inner := s[i+1 : j-1]
@@ -491,6 +489,15 @@ func rewriteImplies(s string) string {
 			i = j - 1
 			continue
 		}
+		if s[i] == '"' || s[i] == '\'' {
+			j := skipQuoted(s, i)
+			if j >= len(s) {
+				j = len(s) - 1
+			}
+			b.WriteString(s[i : j+1])
+			i = j
+			continue
+		}
 		b.WriteByte(s[i])
 	}
 	return b.String()
@@ -506,12 +513,8 @@ func splitTopLevel(s string, sep byte) []string {
 			depth++
 		case ')', ']', '}':
 			depth--
-		case '"':
-			for i++; i < len(s) && s[i] != '"'; i++ {
-				if s[i] == '\\' {
-					i++
-				}
-			}
+		case '"', '\'':
+			i = skipQuoted(s, i)
 		default:
 			if s[i] == sep && depth == 0 {
 				parts = append(parts, s[last:i])
@@ -629,4 +632,16 @@ func (db *ContractDB) sortedContracts() []*Contract {
 	}
 	sort.Slice(out, func(i, j int) bool { return out[i].Key < out[j].Key })
 	return out
+}
+
+// skipQuoted returns the index of the closing quote of the string or rune
+// literal that opens at s[i].
+func skipQuoted(s string, i int) int {
+	q := s[i]
+	for i++; i < len(s) && s[i] != q; i++ {
+		if s[i] == '\\' {
+			i++
+		}
+	}
+	return i
 }
